@@ -720,7 +720,34 @@ func c04Updaters(p *core.Program, r *core.Report) {
 		const (
 			bChanged flow.State = 1 << iota
 			bRow
+			bEmpty
 		)
+		// prior cardinality: locals assigned from <first parameter>.N()
+		priorN := map[types.Object]bool{}
+		var param0 types.Object
+		if len(lit.Type.Params.List) > 0 && len(lit.Type.Params.List[0].Names) > 0 {
+			param0 = info.Defs[lit.Type.Params.List[0].Names[0]]
+		}
+		ast.Inspect(lit.Body, func(n ast.Node) bool {
+			if as, ok := n.(*ast.AssignStmt); ok && len(as.Lhs) == len(as.Rhs) {
+				for k, l := range as.Lhs {
+					id, ok := ast.Unparen(l).(*ast.Ident)
+					if !ok {
+						continue
+					}
+					if c, ok := ast.Unparen(as.Rhs[k]).(*ast.CallExpr); ok {
+						if fn := core.CalleeOf(info, c); fn != nil && fn.Name() == "N" && recvNamed(fn, "Container") {
+							if sel, ok := ast.Unparen(c.Fun).(*ast.SelectorExpr); ok {
+								if rid, ok := ast.Unparen(sel.X).(*ast.Ident); ok && info.ObjectOf(rid) == param0 {
+									priorN[info.ObjectOf(id)] = true
+								}
+							}
+						}
+					}
+				}
+			}
+			return true
+		})
 		// local definitions for the N()-derivation check
 		defs := map[types.Object][]ast.Expr{}
 		ast.Inspect(lit.Body, func(n ast.Node) bool {
@@ -764,6 +791,28 @@ func c04Updaters(p *core.Program, r *core.Report) {
 			})
 			return out
 		}
+		var usesPrior func(e ast.Expr, depth int) bool
+		usesPrior = func(e ast.Expr, depth int) bool {
+			if depth > 4 {
+				return false
+			}
+			hit := false
+			ast.Inspect(e, func(n ast.Node) bool {
+				if id, ok := n.(*ast.Ident); ok {
+					o := info.ObjectOf(id)
+					if priorN[o] {
+						hit = true
+					}
+					for _, d := range defs[o] {
+						if usesPrior(d, depth+1) {
+							hit = true
+						}
+					}
+				}
+				return true
+			})
+			return hit
+		}
 		type incr struct {
 			pos  token.Pos
 			nOf  map[types.Object]bool
@@ -772,6 +821,17 @@ func c04Updaters(p *core.Program, r *core.Report) {
 		var incrs []incr
 		var bad []string
 		h := flow.Hooks{Info: info}
+		h.Refine = func(cond ast.Expr, taken bool, s flow.State) (flow.State, bool) {
+			// existN == 0 (or the container did not exist): nothing was there before
+			if be, ok := ast.Unparen(cond).(*ast.BinaryExpr); ok && be.Op == token.EQL && taken {
+				if id, ok := ast.Unparen(be.X).(*ast.Ident); ok && priorN[info.ObjectOf(id)] {
+					if v, ok := c04ConstInt(info, be.Y); ok && v == 0 {
+						return s | bEmpty, true
+					}
+				}
+			}
+			return s, true
+		}
 		h.Atom = func(n ast.Node, s flow.State) []flow.State {
 			as, ok := n.(*ast.AssignStmt)
 			if !ok || len(as.Lhs) != 1 {
@@ -780,6 +840,10 @@ func c04Updaters(p *core.Program, r *core.Report) {
 			l := ast.Unparen(as.Lhs[0])
 			if id, ok := l.(*ast.Ident); ok && info.ObjectOf(id) == changedObj {
 				incrs = append(incrs, incr{as.Pos(), callsNOn(as.Rhs[0], 0), types.ExprString(as.Rhs[0])})
+				// the amount is a difference against what was there before, unless nothing was
+				if s&bEmpty == 0 && !usesPrior(as.Rhs[0], 0) {
+					bad = append(bad, p.Pos(as.Pos())+": adds "+types.ExprString(as.Rhs[0])+" to the change count on a path where the existing container may hold bits, without subtracting its cardinality")
+				}
 				return []flow.State{s | bChanged}
 			}
 			if ix, ok := l.(*ast.IndexExpr); ok && usesObj(ix.X, rowSetObj) {
